@@ -51,6 +51,22 @@ def check_builtin_table(S, rule):
             for x in walk(e["iter"]):
                 if x.get("k") == "lit" and x["lit"]["t"] == "str":
                     names.add(x["lit"]["v"])
+    # ... or the table lives in constants and the set is collected from them (`NAMES.iter().chain(..).map(to_string).collect()`): every constant
+    # array of string literals that TypeResolver::new mentions belongs to the table
+    for e in walk_block(fn.body):
+        if e.get("k") == "path":
+            c = S.consts.get(e["segs"][-1])
+            ce = c.get("expr") if c else None
+            while isinstance(ce, dict) and ce.get("k") in ("ref", "paren"):
+                ce = ce["expr"]
+            if isinstance(ce, dict) and ce.get("k") == "array":
+                for x in ce["elems"]:
+                    if lit_str(x) is not None:
+                        names.add(lit_str(x))
+                    else:
+                        names.add("<computed:%s>" % expr_text(x)[:30])
+        if e.get("k") == "array" and e.get("elems") and all(lit_str(x) is not None for x in e["elems"]):
+            names.update(lit_str(x) for x in e["elems"])
     extra = sorted(n for n in names if n not in DOC_BUILTINS and not n.startswith("<computed"))
     if not names:
         rule.bad(V(rule.id, "TypeResolver::new", "builtin-table-empty", "no built-in type names found: re-anchor"))
@@ -319,6 +335,28 @@ def check(ctx):
             r1.ok("extract_type_names(%s) in %s" % (k, seen[k]))
         else:
             r1.bad(V(r1.id, "CommandAnalyzer", "unharvested-seed:%s" % k, "type names are never harvested from %s (%s)" % (what, k)))
+    # the same collection written as an iterator chain: the structure is read in one closure and handed to the collecting closure by the
+    # adapters in between; within the family of a function that collects, a read of the field counts (weaker: the read is not followed
+    # through the chain, but a site that stops collecting a structure stops reading it there as well)
+    def reads_field(g, dotted):
+        adt_, fld_ = dotted.rsplit(".", 1)
+        for blk in g.blocks:
+            for st in blk["stmts"]:
+                rv = st.get("rv") or {}
+                pls = [rv.get("place")] + [x.get("copy") or x.get("move") for x in ([rv.get("op")] if isinstance(rv.get("op"), dict) else [])]
+                for pl in pls:
+                    if pl and any(pj.get("k") == "field" and pj.get("name") == fld_ and (pj.get("adt") or "").endswith("::" + adt_) for pj in pl.get("p", [])):
+                        return True
+        return False
+    for k in STRUCT_FIELDS:
+        if k in seen2:
+            continue
+        for fid in sorted(reach):
+            if "::{closure" in fid or fid not in P.fns:
+                continue
+            fam = [P.fns[x] for x in P.family(fid) if "{promoted" not in x]
+            if any(short_path(c.best) == "TypeCollector::collect_referenced_types_from_structure" for g in fam for c in g.calls) and any(reads_field(g, k) for g in fam if "::{closure" in g.id):
+                seen2.setdefault(k, short_path(fid) + " (iterator chain)")
     for k, what in STRUCT_FIELDS.items():
         if k in seen2:
             r1.ok("collect_referenced_types_from_structure(%s) in %s" % (k, seen2[k]))
